@@ -439,8 +439,8 @@ example : Parse.kekLenOk demoCfg.kek = true ∧ Parse.bcdVersionOk demoCfg.produ
   refine ⟨by decide, ⟨by decide, by decide, by decide⟩, ⟨by decide, by decide, by decide⟩, by decide⟩
 example : ((Parse.parsedOf21 demoCfg).sections.map (fun s => (s.uid, s.hmacCount, s.cmds.length))) = [(0, 2, 12), (7, 1, 1)] := by decide
 example : Spec.WF21 demoCfg := by decide +kernel
-/-- hypotheses of `image_section_byte_tampered_v21` are satisfiable: byte 704 (first section's encrypted header) exists -/
-example : (Spec.expected21 demoCfg).firstBootTagBlock * 16 = 704 ∧ 704 < Spec.fileLen21 demoCfg := by decide +kernel
+/-- hypotheses of `image_section_byte_tampered_v21` are satisfiable: byte 656 (first section's encrypted header) exists -/
+example : (Spec.expected21 demoCfg).firstBootTagBlock * 16 = 656 ∧ 656 < Spec.fileLen21 demoCfg := by decide +kernel
 example : Spec.WF20 demoCfg true ∧ Spec.WF20 demoCfg false := by decide +kernel
 example : ∀ x ∈ demoCmds, Spec.WFcmd x := by decide
 example : (Spec.expected21 demoCfg).imageBlocks * 16 = 208 + 160 + 32 + 256 + (48 + 64 + 13 * 16) + (48 + 32 + 16) := by decide +kernel
